@@ -59,7 +59,21 @@ def main(argv):
         tier = argv[argv.index("--tier") + 1]
     tier = core.tier_from(tier)
     mod = importlib.import_module("harness.props." + pid.lower())
-    return mod.run(tier)
+    try:
+        return mod.run(tier)
+    except Exception:   # noqa
+        # the check's own machinery stopped on this tree (an exception nothing in it expects): the property is no longer shown
+        # to hold; reported as such, with the traceback as the replay
+        import traceback
+        tb = traceback.format_exc()
+        os.makedirs(os.path.join(core.BUILD, "replay"), exist_ok=True)
+        path = os.path.join(core.BUILD, "replay", f"{pid}_check_stopped.json")
+        json.dump(dict(property=pid, what="the check stopped with an exception before reaching its verdict: the correspondence "
+                       "between the implementation and the harness / model no longer runs", traceback=tb), open(path, "w"), indent=1)
+        last = tb.strip().split("\n")[-1][:300]
+        print(f"# the check stopped with an exception on this tree ({last})")
+        print(f"VIOLATION property={pid} replay={path} no-failing-input-found")
+        return 1
 
 
 if __name__ == "__main__":
